@@ -1304,8 +1304,13 @@ class Node:
             self.logger.warning(
                 f"{conn} CER rejected with {message.result_code} (message: "
                 f"{message.error_message}), closing connection")
-            self.close_connection_socket(
-                conn, DISCONNECT_REASON_CER_REJECTED)
+            # This runs in the read thread of the connection; sockets and the
+            # connection tables belong to the connection thread, which closes
+            # the socket when it sees the closed connection
+            peer = self._find_connection_peer(conn)
+            if peer and peer.disconnect_reason is None:
+                peer.disconnect_reason = DISCONNECT_REASON_CER_REJECTED
+            conn.close()
             return
 
         # TODO: for SCTP, compare configured IP addresses with advertised and
